@@ -166,15 +166,34 @@ def run(ctx, rep):
     shapes = {a: [x[1:] for x in sorted(v, key=lambda x: x[0])] for a, v in arms.items()}
     rep.extra['arm_shapes'] = {a: [list(map(str, s)) for s in v] for a, v in shapes.items()}
     NE = 'is_empty(PREV)==False'
+    # the value finally inserted, as a concatenation: [base] + pushed parts (each with its guards). The accumulator
+    # may start as a fresh OsString (NEW, contributes nothing), as the previous value or as a clone of the entry value.
+    concat = {}
+    for arm, items in shapes.items():
+        ins = [x for x in items if x[0] == 'insert']
+        if len(ins) != 1:
+            concat[arm] = ('?', '%d inserts' % len(ins))
+            continue
+        acc = ins[0][2]
+        seq = [] if acc == 'NEW' else [(acc, ())]
+        for kind, recv, val, guards in items:
+            if kind == 'push':
+                if recv != acc:
+                    seq.append(('push-on-other:' + str(recv), guards))
+                else:
+                    seq.append((val, guards))
+        concat[arm] = (ins[0][1], tuple(seq), ins[0][3])
+    rep.extra['arm_values'] = {a: str(v) for a, v in concat.items()}
     want = {
-        'Override': [('insert', 'NAME', 'VALUE', ())],
-        'Default': [('insert', 'NAME', 'VALUE', ('contains_key(NAME)==False',))],
-        'Append': [('push', 'PREV', 'DELIM', (NE,)), ('push', 'PREV', 'VALUE', ()), ('insert', 'NAME', 'PREV', ())],
-        'Prepend': [('push', 'NEW', 'VALUE', ()), ('push', 'NEW', 'DELIM', (NE,)), ('push', 'NEW', 'PREV', (NE,)), ('insert', 'NAME', 'NEW', ())],
+        'Override': [('NAME', (('VALUE', ()),), ())],
+        'Default': [('NAME', (('VALUE', ()),), ('contains_key(NAME)==False',))],
+        'Append': [('NAME', (('PREV', ()), ('DELIM', (NE,)), ('VALUE', ())), ())],
+        'Prepend': [('NAME', (('VALUE', ()), ('DELIM', (NE,)), ('PREV', (NE,))), ()),
+                    ('NAME', (('VALUE', ()), ('DELIM', (NE,)), ('PREV', ())), ())],
     }
     for arm, w in want.items():
-        got = shapes.get(arm, [])
-        rep.check(got == w, 'R5', 'shape/' + arm, gw, '%s: %s' % (arm, w), '%s arm has shape %s, the CNB rule is %s' % (arm, got, w))
+        got = concat.get(arm)
+        rep.check(got in w, 'R5', 'shape/' + arm, gw, '%s: %s' % (arm, w[0]), '%s arm computes %s, the CNB rule is %s' % (arm, got, w[0]))
     rep.check('Delimiter' not in shapes, 'R5', 'shape/Delimiter', gw, 'Delimiter entries change no variable',
               'Delimiter arm mutates the environment: %s' % shapes.get('Delimiter'))
     # delimiter lookup
